@@ -220,30 +220,49 @@ theorem commit_unmarked_untouched (tables : Tables) (n : String) : ∀ (marks : 
 
 /-! ## cancellation -/
 
-/-- a cancellation noticed before the publication: nothing changed -/
-theorem cancel_in_body_id (s : State) (st : Stmt) :
-    (stmtCancel s st .inBody).1 = s ∧ (stmtCancel s st .inBody).2.isError = true := ⟨rfl, rfl⟩
+/-- a statement cancelled at ANY context check of ANY statement is the identity on tables, uncommitted marks
+    and committed state, and reports an error (every check precedes the publication of the results) -/
+theorem failed_stmt_id_cancel (s : State) (st : Stmt) (c : CancelPoint) :
+    (stmtCancel s st c).1 = s ∧ (stmtCancel s st c).2.isError = true := by
+  cases c with
+  | inBody => exact ⟨rfl, rfl⟩
+  | beforePublish =>
+    simp only [stmtCancel]
+    cases body s.tables st with
+    | error e => exact ⟨rfl, rfl⟩
+    | ok outs => exact ⟨rfl, rfl⟩
+
+theorem failed_stmt_id_cancel_tables_marks (s : State) (st : Stmt) (c : CancelPoint) :
+    (stmtCancel s st c).1.tables = s.tables ∧ (stmtCancel s st c).1.marks = s.marks := by
+  rw [(failed_stmt_id_cancel s st c).1]; exact ⟨rfl, rfl⟩
+
+/-- … and a COMMIT after the cancelled statement writes what a COMMIT before it would have written -/
+theorem commit_after_cancel (s : State) (st : Stmt) (c : CancelPoint) :
+    commit (stmtCancel s st c).1 = commit s := by
+  rw [(failed_stmt_id_cancel s st c).1]
 
 /-
-  Full statement for cancellation (false for the code as it is):
-
-    theorem failed_stmt_id_cancel : (stmtCancel s st c).2 = .error e → (stmtCancel s st c).1.tables = s.tables
-
-  Delete's publication loop checks the context before each table: a cancellation that arrives after the first
-  table of a multi-table DELETE was stored returns an error with that table's records already removed (and no
-  uncommitted mark, so the removal is visible to the following statements but a COMMIT does not write it).
+  Why Delete must not look at the context inside its publication loop — facts about the loop as it was before
+  the repair 2dda37b (`stmtCancelOldLoop`): a cancellation that arrived after the first table of a multi-table
+  DELETE was stored returned an error with that table's records already removed and no uncommitted mark.
 -/
 def w1 : Table := { header := ["id"], rows := [[nullCell]] }
 def wState : State := { tables := [("t1", w1), ("t2", w1)], marks := [], committed := [("t1", w1), ("t2", w1)] }
 def wStmt : Stmt := .deleteMulti ["t1", "t2"] ["t1", "t2"] (fun _ => .ok .T)
 
-/-- witness: `DELETE t1, t2 FROM t1, t2` cancelled after the first table was stored -/
-theorem failed_stmt_id_cancel_counterexample :
-    (stmtCancel wState wStmt (.inPublish 1)).2.isError = true ∧
-    ((stmtCancel wState wStmt (.inPublish 1)).1.tables.map fun e => (e.1, e.2.rows.length)) = [("t1", 0), ("t2", 1)] ∧
+/-- witness for the old loop: `DELETE t1, t2 FROM t1, t2` cancelled after the first table was stored -/
+theorem old_publication_loop_cancel_counterexample :
+    (stmtCancelOldLoop wState wStmt 1).2.isError = true ∧
+    ((stmtCancelOldLoop wState wStmt 1).1.tables.map fun e => (e.1, e.2.rows.length)) = [("t1", 0), ("t2", 1)] ∧
     (wState.tables.map fun e => (e.1, e.2.rows.length)) = [("t1", 1), ("t2", 1)] ∧
-    (stmtCancel wState wStmt (.inPublish 1)).1.marks = [] := by
+    (stmtCancelOldLoop wState wStmt 1).1.marks = [] := by
   refine ⟨?_, ?_, ?_, ?_⟩ <;> decide
+
+/-- the same statement under the repaired code: nothing changes -/
+theorem repaired_loop_on_witness :
+    ((stmtCancel wState wStmt .beforePublish).1.tables.map fun e => (e.1, e.2.rows.length)) = [("t1", 1), ("t2", 1)] ∧
+    (stmtCancel wState wStmt .beforePublish).2.isError = true := by
+  refine ⟨?_, ?_⟩ <;> decide
 
 theorem deleteTargets_length (ts : Tables) (froms : List String) (view : List JRow) :
     ∀ (targets : List String) (outs : List Out), deleteTargets ts froms view targets = .ok outs → outs.length = targets.length := by
@@ -268,49 +287,46 @@ theorem deleteTargets_length (ts : Tables) (froms : List String) (view : List JR
           cases h
           simp [ih outs' hrest]
 
-/-- partial: for every statement other than a DELETE with two or more target tables — and for those when the
-    cancellation arrives before the first table is stored — a cancelled statement changes nothing -/
-theorem failed_stmt_id_cancel_partial (s : State) (st : Stmt) (c : CancelPoint) (e : Err)
-    (hsafe : ∀ targets froms cond k, st = .deleteMulti targets froms cond → c = .inPublish k → k = 0 ∨ targets.length ≤ 1)
-    (h : (stmtCancel s st c).2 = .error e) : (stmtCancel s st c).1 = s := by
-  cases c with
-  | inBody => rfl
-  | inPublish k =>
-    cases st with
-    | deleteMulti targets froms cond =>
-      have hk := hsafe targets froms cond k rfl rfl
-      simp only [stmtCancel] at h ⊢
-      cases hb : body s.tables (.deleteMulti targets froms cond) with
-      | error e' => rfl
-      | ok outs =>
-        simp only [hb] at h ⊢
-        have hlen : outs.length = targets.length := by
-          simp only [body] at hb
-          cases hj : joinedView s.tables froms cond with
-          | error e' => simp [hj] at hb
-          | ok view =>
-            simp only [hj] at hb
-            exact deleteTargets_length _ _ _ targets outs hb
-        split
-        · rename_i hlt
-          have hk0 : k = 0 := by
-            rcases hk with h0 | h1
-            · exact h0
-            · omega
-          subst hk0
-          simp [publish]
-        · rename_i hge
-          simp only [hge, if_false] at h
-          exact failed_stmt_id s _ e h
-    | insert _ _ _ => exact failed_stmt_id s _ e h
-    | replace _ _ _ _ _ => exact failed_stmt_id s _ e h
-    | update _ _ _ => exact failed_stmt_id s _ e h
-    | delete _ _ => exact failed_stmt_id s _ e h
-    | updateMulti _ _ _ _ => exact failed_stmt_id s _ e h
-    | addCols _ _ _ => exact failed_stmt_id s _ e h
-    | dropCols _ _ => exact failed_stmt_id s _ e h
-    | rename _ _ _ => exact failed_stmt_id s _ e h
-    | create _ _ _ => exact failed_stmt_id s _ e h
+/-- the old loop was harmless exactly for statements other than a DELETE with two or more targets, and for
+    those when the cancellation arrived before the first table was stored -/
+theorem old_publication_loop_cancel_partial (s : State) (st : Stmt) (k : Nat) (e : Err)
+    (hsafe : ∀ targets froms cond, st = .deleteMulti targets froms cond → k = 0 ∨ targets.length ≤ 1)
+    (h : (stmtCancelOldLoop s st k).2 = .error e) : (stmtCancelOldLoop s st k).1 = s := by
+  cases st with
+  | deleteMulti targets froms cond =>
+    have hk := hsafe targets froms cond rfl
+    simp only [stmtCancelOldLoop] at h ⊢
+    cases hb : body s.tables (.deleteMulti targets froms cond) with
+    | error e' => rfl
+    | ok outs =>
+      simp only [hb] at h ⊢
+      have hlen : outs.length = targets.length := by
+        simp only [body] at hb
+        cases hj : joinedView s.tables froms cond with
+        | error e' => simp [hj] at hb
+        | ok view =>
+          simp only [hj] at hb
+          exact deleteTargets_length _ _ _ targets outs hb
+      split
+      · rename_i hlt
+        have hk0 : k = 0 := by
+          rcases hk with h0 | h1
+          · exact h0
+          · omega
+        subst hk0
+        simp [publish]
+      · rename_i hge
+        simp only [hge, if_false] at h
+        exact failed_stmt_id s _ e h
+  | insert _ _ _ => exact failed_stmt_id s _ e h
+  | replace _ _ _ _ _ => exact failed_stmt_id s _ e h
+  | update _ _ _ => exact failed_stmt_id s _ e h
+  | delete _ _ => exact failed_stmt_id s _ e h
+  | updateMulti _ _ _ _ => exact failed_stmt_id s _ e h
+  | addCols _ _ _ => exact failed_stmt_id s _ e h
+  | dropCols _ _ => exact failed_stmt_id s _ e h
+  | rename _ _ _ => exact failed_stmt_id s _ e h
+  | create _ _ _ => exact failed_stmt_id s _ e h
 
 /-! ## non-vacuity -/
 
